@@ -39,6 +39,7 @@ type c13Params struct {
 	flat        bool
 	busyAtStart bool
 	slowWrites  int // up to this many transmissions block in the socket write (pause/2, pause, 2*pause)
+	writeFails  int // up to this many transmissions fail in the socket write (transient error)
 	lost        int // after the senders are done: a lost indication for that many messages, with a busy indication arriving while the batch is being repeated
 }
 
@@ -64,6 +65,14 @@ func c13Run(p c13Params) func() {
 				unit = 10 * ms
 			}
 			return []mc.Duration{0, unit / 2, unit, 2 * unit}[c]
+		}
+		failLeft := p.writeFails
+		sock.FailSend = func(v knxnet.ServicePackable) error {
+			if _, ok := v.(*knxnet.RoutingInd); ok && failLeft > 0 && mc.Choose(2, mc.Fault) == 1 {
+				failLeft--
+				return fakesock.ErrSockClosed
+			}
+			return nil
 		}
 		busy := func() {
 			w := p.waits[mc.Choose(len(p.waits), mc.Free)]
@@ -307,6 +316,9 @@ func init() {
 		q := c13Params{pauseUs: us, senders: 2, perSender: 2, maxBusy: 1, waits: []int{0, 10}}
 		register("both", &h.Scenario{Name: fmt.Sprintf("C13-pause%dus-2x2-busy1", us), Prop: "C13", P: 1, F: 1, D: 1, Run: c13Run(q), Check: c13Oracle(q)})
 	}
+	// a transmission fails in the socket write: the transmissions after it are paced as before
+	wf := c13Params{pause: 20, senders: 2, perSender: 3, writeFails: 1}
+	register("both", &h.Scenario{Name: "C13-pause20-2x3-write-fails", Prop: "C13", P: 1, F: 1, D: 1, Run: c13Run(wf), Check: c13Oracle(wf)})
 	f := c13Params{pause: 20, senders: 8, perSender: 25, flat: true}
 	register("both", &h.Scenario{Name: "C13-flat-8x25", Prop: "C13", P: 0, F: 0, D: -1, Run: c13Run(f), Check: c13Oracle(f)})
 	t1 := c13Params{pause: 20, senders: 3, perSender: 2, maxBusy: 3, waits: []int{0, 10, 50, 100, 500}, busyAtStart: true}
